@@ -26,7 +26,11 @@ type c09Script struct {
 	seenID    string
 	seenBody  interface{}
 	accept    map[string]bool // token -> accepted
+	principal interface{}     // what the accepting authenticator yields (any non-nil value is a principal)
 }
+
+// c09Principals: principals need not be "truthy" values.
+var c09Principals = []interface{}{"principal", 0, "", false}
 
 var c09S *c09Script
 
@@ -80,7 +84,7 @@ func c09Build() *Context {
 	}
 	api.RegisterAuth("key", runtime.AuthenticatorFunc(func(params interface{}) (bool, interface{}, error) {
 		c09S.authCalls++
-		return true, "principal", nil
+		return true, c09S.principal, nil
 	}))
 	api.RegisterAuthorizer(runtime.AuthorizerFunc(func(r *http.Request, pr interface{}) error {
 		c09S.authz++
@@ -121,7 +125,7 @@ func c09Req(path, ct, accept, body string) *http.Request {
 func VerifC09Memo() {
 	ctx := zv.Cached("c09", func() interface{} { return c09Build() }).(*Context)
 	vRec = &vRecorder{}
-	c09S = &c09Script{}
+	c09S = &c09Script{principal: c09Principals[zv.Choose("principal", len(c09Principals))]}
 	ct := []string{"application/json", "text/plain", "image/png"}[zv.Choose("ct", 3)]
 	accept := []string{"", "text/plain", "image/png"}[zv.Choose("accept", 3)]
 	r := c09Req("/items/42", ct, accept, "abc")
@@ -214,12 +218,12 @@ func VerifC09Isolation() {
 	cts := []string{"application/json", "text/plain"}
 	paths := []string{"/notes", "/items/7", "/items/8"}
 	vRec = &vRecorder{}
-	c09S = &c09Script{}
+	c09S = &c09Script{principal: "principal"}
 	r1 := c09Req(paths[zv.Choose("path1", 3)], cts[zv.Choose("ct1", 2)], "", "one")
 	h.ServeHTTP(vNewWriter(), r1)
 	zv.Assert("first-request-handled", c09S.handled == 1 && vRec.errCount == 0)
 
-	c09S = &c09Script{}
+	c09S = &c09Script{principal: "principal"}
 	p2 := zv.Choose("path2", 3)
 	c2 := zv.Choose("ct2", 2)
 	r2 := c09Req(paths[p2], cts[c2], "", "two")
@@ -248,10 +252,10 @@ func VerifC09Shared() {
 	ctx := c09Build()
 	h := ctx.RoutesHandler(nil)
 	vRec = &vRecorder{}
-	c09S = &c09Script{}
+	c09S = &c09Script{principal: "principal"}
 	// warm-up request: lazily built state is created before the step is monitored
 	h.ServeHTTP(vNewWriter(), c09Req("/items/1", "application/json", "", "w"))
-	c09S = &c09Script{}
+	c09S = &c09Script{principal: "principal"}
 	r := c09Req([]string{"/notes", "/items/7", "/nope"}[zv.Choose("path", 3)], []string{"application/json", "text/plain", "image/png"}[zv.Choose("ct", 3)],
 		[]string{"", "text/plain", "image/png"}[zv.Choose("accept", 3)], "x")
 	zv.BeginShared(ctx, h)
